@@ -4,14 +4,15 @@ import random
 import sys
 from vf import Case
 sys.path.insert(0, os.path.join(os.path.dirname(os.path.abspath(__file__)), ".."))
-from gen import crc_table, constants
+from gen import crc_table, constants, cloops
 
 ID = "C16"
 DRIVER = "drv_codec"
 HARNESS = "h_codec"
 QUICK_LEVEL = "thorough"      # the larger case set costs only seconds
 THOROUGH_SEEDS = 4
-GEN = [crc_table.gen, constants.gen]
+GEN = [crc_table.gen, constants.gen, cloops.crc_gen]
+tie_modules = cloops.crc_tie_modules     # one obligation module per function of crc-16-arc.c the loop translator delivered
 
 
 def _codec_consts():
@@ -33,10 +34,14 @@ RULE = ("the 256 one-octet checksums from state 0 (the whole table) on every run
 EXHAUSTIVE = {"quick": False, "thorough": True}
 ASSUMPTIONS = [
     "tie A: crc16_table, crc16_octet's expression and CRC16_ARC_INITIAL are regenerated from src/crc-16-arc.c on every run; the theorems over them are re-checked",
-    "tie B: the loops of ufw_crc16_arc/ufw_crc16_arc_u16 are hand transcribed (folds) and compared by running",
+    "tie A (loops): every function of src/crc-16-arc.c is translated from clang's typed AST on every run (tools/gen/cloops.py -> Gen/CrcLoops.lean: "
+    "integer promotions explicit, loops as recursion on fuel, loads that fail outside the block) and proved to return the value of the model's folds on a block of "
+    "exactly n octets / words with fuel > n, and to leave the block when n is larger (Ufw.Tie.CrcLoops.*); a function outside the translator's subset is reported "
+    "`unavailable` and left to tie B",
+    "tie B: the same functions are compared by running (three-way)",
     "the SYSTEM_ENDIANNESS_BIG branch of ufw_crc16_arc_u16 cannot be executed on this host: covered by theorem crc_u16_eq_octets only",
 ]
-TRUSTED = ["translator tools/gen/crc_table.py", "harness/h_codec.c + tools/lib/vf.py",
+TRUSTED = ["translators tools/gen/crc_table.py, tools/gen/cloops.py + prelude lean/Ufw/Tie/CPre.lean (meaning of loads, casts, fuel)", "harness/h_codec.c + tools/lib/vf.py",
            "bv_decide axioms (Lean.ofReduceBool-style: the LRAT checker compiled by Lean is trusted, not the SAT solver)"]
 DESIGN_REF = "DESIGN.md section 0.2 (as built) and section 8, C16"
 TECHNIQUE = "Lean 4 proof: regenerated table = bitwise register (kernel evaluation), table formula for all 2^24 pairs (bv_decide), induction over the octet list; differential three-way correspondence"
